@@ -8,6 +8,7 @@ import (
 	"os"
 	"os/exec"
 	"strings"
+	"sync"
 	"testing"
 	"time"
 
@@ -258,10 +259,11 @@ func checkDateTimeCore(c dCase) (site, msg string) {
 		}
 		close(q)
 		<-done
-		if rec.count() != 1 {
-			return "uhppote.Listen/no-event", fmt.Sprintf("event with system date+time %s: %d events, errors %v", text, rec.count(), rec.errs)
+		first, nev, errs := rec.first()
+		if nev != 1 {
+			return "uhppote.Listen/no-event", fmt.Sprintf("event with system date+time %s: %d events, errors %v", text, nev, errs)
 		}
-		if got := api.DateTimeText(rec.events[0].SystemDateTime); got != text {
+		if got := api.DateTimeText(first.SystemDateTime); got != text {
 			return "uhppote.Listen/system-datetime", fmt.Sprintf("event system date+time %s came back as %s", text, got)
 		}
 	}
@@ -397,22 +399,46 @@ func genCase(t *rapid.T) dCase {
 }
 
 type recorder struct {
-	mu     chan struct{}
+	mu     sync.Mutex
 	events []types.Status
 	errs   []string
 	conn   bool
 }
 
-func (r *recorder) lock() {
-	if r.mu == nil {
-		r.mu = make(chan struct{}, 1)
-	}
+func (r *recorder) OnConnected() {
+	r.mu.Lock()
+	r.conn = true
+	r.mu.Unlock()
 }
-func (r *recorder) OnConnected()                { r.conn = true }
-func (r *recorder) OnEvent(s *types.Status)      { r.events = append(r.events, *s) }
-func (r *recorder) OnError(err error) bool       { r.errs = append(r.errs, err.Error()); return true }
-func (r *recorder) connected() bool             { return r.conn }
-func (r *recorder) count() int                  { return len(r.events) + len(r.errs) }
+func (r *recorder) OnEvent(s *types.Status) {
+	r.mu.Lock()
+	r.events = append(r.events, *s)
+	r.mu.Unlock()
+}
+func (r *recorder) OnError(err error) bool {
+	r.mu.Lock()
+	r.errs = append(r.errs, err.Error())
+	r.mu.Unlock()
+	return true
+}
+func (r *recorder) connected() bool {
+	r.mu.Lock()
+	defer r.mu.Unlock()
+	return r.conn
+}
+func (r *recorder) count() int {
+	r.mu.Lock()
+	defer r.mu.Unlock()
+	return len(r.events) + len(r.errs)
+}
+func (r *recorder) first() (types.Status, int, []string) {
+	r.mu.Lock()
+	defer r.mu.Unlock()
+	if len(r.events) == 0 {
+		return types.Status{}, 0, r.errs
+	}
+	return r.events[0], len(r.events), r.errs
+}
 
 func props() []rp.Prop {
 	return []rp.Prop{
